@@ -2,7 +2,8 @@ package main
 
 // C09 legs: the real results.AnalysisThird methods in explicit visiting orders, the real generateAllGlobalMaps
 // (Go map order, repeated), the real GetBestMatchReferFile (Go map order + sort.Sort, repeated), and whole
-// project analyses repeated under different GOMAXPROCS.
+// project analyses repeated under different GOMAXPROCS, and the real server in project mode (luahelper.json with
+// ProjectFiles), one fresh process per run.
 
 import (
 	"fmt"
@@ -212,6 +213,42 @@ func init() {
 			fmt.Fprintf(os.Stderr, "c09.srvrep answer:\n%s\n", first)
 		}
 		return "{STABLE}"
+	})
+
+	// case: "<nreps> <entries> <structure> <queries> <srv.script case...>": a project-mode workspace (luahelper.json
+	// with ProjectFiles) in the REAL server, one fresh process per run; the script's query steps are go-to-definition
+	// on names that several project files define. Observable: per query step the SET of answers over the runs
+	// (the structure fields are for the model only)
+	register("c09.projtable", func(line string) string {
+		f := strings.SplitN(line, " ", 5)
+		if len(f) < 5 {
+			return "BAD-CASE"
+		}
+		nreps, _ := strconv.Atoi(f[0])
+		var seen []map[string]bool
+		for run := 0; run < nreps; run++ {
+			o := legs["srv.script"](f[4])
+			if strings.HasPrefix(o, "CRASH") || strings.HasPrefix(o, "TIMEOUT") || strings.HasPrefix(o, "SETUP-ERROR") {
+				return o
+			}
+			parts := strings.Split(o, " | ")
+			if run == 0 {
+				seen = make([]map[string]bool, len(parts))
+				for i := range seen {
+					seen[i] = map[string]bool{}
+				}
+			} else if len(parts) != len(seen) {
+				return "SHAPE-CHANGED " + o
+			}
+			for i, p := range parts {
+				seen[i][strings.NewReplacer("{", "(", "}", ")", "|", "/").Replace(p)] = true
+			}
+		}
+		out := []string{}
+		for i := range seen {
+			out = append(out, c18Set(seen[i]))
+		}
+		return strings.Join(out, ";")
 	})
 }
 
